@@ -403,11 +403,14 @@ def _run(ck, calls):
     tid = 0
     skipped = 0
     scale = float(os.environ.get("VERIF_TIME_SCALE", "1"))  # time boxes of the daemon phases (loaded machine: scale up)
-    budget_scen, budget_sim, budget_rand = ck.pick(22, 120) * scale, ck.pick(6, 280) * scale, ck.pick(6, 200) * scale
+    budget_scen, budget_sim, budget_rand = ck.pick(16, 120) * scale, ck.pick(5, 280) * scale, ck.pick(5, 200) * scale
     scen = ck.export("CacheValidity_Scenarios", label="Export:CacheValidity_Scenarios", timeout=300)
-    first = ["removed-for-good", "removed-fallback", "eclass-edited", "indirect-edited", "ebuild-edited", "moved-to-overlay",
-             "shadowed", "strip-inherit", "indirect-removed", "hit"]
-    scen.sort(key=lambda c: (first.index(c["name"]) if c["name"] in first else len(first), c["name"], c["kind"]))
+    # cheap, most telling scenarios first; the ones whose regeneration fails (the daemon dies and is respawned) last
+    first = ["eclass-edited", "indirect-edited", "ebuild-edited", "removed-fallback", "moved-to-overlay", "shadowed",
+             "strip-inherit", "hit", "nest-added", "ebuild-touched", "eclass-touched"]
+    last = ["removed-for-good", "indirect-removed", "broken-from-start", "ebuild-drops-inherit"]
+    scen.sort(key=lambda c: (first.index(c["name"]) if c["name"] in first else len(first) + (1 + last.index(c["name"]) if c["name"] in last else 0),
+                             c["name"], c["kind"]))
     t_phase = time.time()
     for c in scen:
         if time.time() - t_phase > budget_scen and tid >= 8:
